@@ -33,8 +33,12 @@ func TestC06(t *testing.T) {
 			continue
 		}
 		r.Progress(id, "")
-		if vf.Hash("c06-family", id)%16 == 0 {
+		switch vf.Hash("c06-family", id) % 16 {
+		case 0:
 			c06Overflow(r, t, id, r.Rand(id))
+			continue
+		case 1:
+			c06ReadError(r, t, id, r.Rand(id))
 			continue
 		}
 		c06Scenario(r, t, id, r.Rand(id))
@@ -114,6 +118,7 @@ func c06Scenario(r *vf.Run, t *testing.T, id string, rng *rand.Rand) {
 		rt.Wait()
 		setSeq := 0
 		curInit := w0
+		var lastSt *rt.LedgerState
 		check := func(where string) {
 			viol, st := led.Replay(e.P.Frames(), actions, 1)
 			if viol != "" {
@@ -140,13 +145,43 @@ func c06Scenario(r *vf.Run, t *testing.T, id string, rng *rand.Rand) {
 				if owed < 0 {
 					fail("more-data-than-body", fmt.Sprintf("%s: stream %d received %d bytes more than the handler produced", where, sid, -owed))
 				}
+				if owed == 0 && sizes[i] > 0 && st.Ended[sid] == 0 {
+					// the last byte is out; END_STREAM needs no window (an empty DATA frame carries it)
+					fail("end-stream-withheld", fmt.Sprintf("%s: stream %d has received all %d bytes of its response and no END_STREAM, its window is %d, the connection window %d, and the server is quiescent (response mode %d)", where, sid, sizes[i], st.Streams[sid], st.Conn, modes[i]))
+					return
+				}
 			}
+			lastSt = st
+		}
+		// exactOwed returns an increment that takes the stream's window to exactly what the response still owes (0 if there is
+		// nothing sensible to send): the last body byte then uses the last octet of window
+		exactOwed := func(i int) int64 {
+			if lastSt == nil {
+				return 0
+			}
+			sid := uint32(2*i + 1)
+			owed := int64(sizes[i]) - lastSt.Sent[sid]
+			if inc := owed - lastSt.Streams[sid]; owed > 0 && inc > 0 && inc < 1<<30 {
+				return inc
+			}
+			return 0
 		}
 		gi := 0
 		for step := 0; step < nsteps && !failed; step++ {
 			var burst []byte
 			at := e.P.NFrames()
 			for a := 1 + rng.Intn(3); a > 0; a-- {
+				if rng.Intn(8) == 0 && !settingsChanged {
+					// (only while no INITIAL_WINDOW_SIZE change is in flight, so that the window known here is the window there)
+					i := rng.Intn(k)
+					if inc := exactOwed(i); inc > 0 {
+						sid := uint32(2*i + 1)
+						burst = append(burst, rt.WindowUpdate(sid, uint32(inc))...)
+						actions = append(actions, rt.Action{At: at, Kind: "wu", Stream: sid, Val: inc})
+						kinds = append(kinds, "wx")
+						continue
+					}
+				}
 				switch rng.Intn(7) {
 				case 0, 1:
 					sid := uint32(2*rng.Intn(k) + 1)
@@ -357,4 +392,71 @@ func c06Overflow(r *vf.Run, t *testing.T, id string, rng *rand.Rand) {
 	})
 	c01Outcome(r, id, res, nil, replay, "C06")
 	r.Eval(vf.Hash("overflow", size/20000, connFirst/5000), true)
+}
+
+// c06ReadError: the body reader of one or more responses fails after part of the body has gone out (the server resets
+// those streams); what they used of the connection window stays used. The responses that follow on the same connection
+// get exactly what is left of it, not a byte more, and finish once the peer opens it.
+func c06ReadError(r *vf.Run, t *testing.T, id string, rng *rand.Rand) {
+	nBroken := 1 + rng.Intn(3)
+	replay := map[string]any{"family": "body-reader-fails-under-a-tight-connection-window", "broken_responses": nBroken}
+	failed := false
+	fail := func(rule, detail string) {
+		if !failed {
+			r.Fail("C06."+rule, id, detail, nil, replay)
+		}
+		failed = true
+	}
+	res := rt.RunBubble(t, id, 60*time.Second, func() {
+		e := rt.NewServerEnv(id, rt.ServerOpts{PeerSettings: []wire.Setting{{ID: 4, Val: 1 << 20}}})
+		next := uint32(1)
+		var breakAt []int
+		for i := 0; i < nBroken; i++ {
+			tag := fmt.Sprintf("%s.%d", id, next)
+			at := 1 + []int{16384, 20000, 100, 40000}[rng.Intn(4)] + rng.Intn(10)
+			breakAt = append(breakAt, at)
+			e.H.SetPlan(tag, &rt.RespPlan{Status: 200, Body: make([]byte, at+30000), Stream: 1 + rng.Intn(2), ReadChunk: []int{0, 16384, 5000}[rng.Intn(3)], ReadErrAfter: at})
+			e.P.Write(simpleGet(e.P, next, tag))
+			rt.Wait()
+			next += 2
+		}
+		replay["break_after_bytes"] = breakAt
+		goodSize := 70000 + rng.Intn(60000)
+		good := next
+		tag := fmt.Sprintf("%s.%d", id, good)
+		e.H.SetPlan(tag, &rt.RespPlan{Status: 200, Body: make([]byte, goodSize), Stream: rng.Intn(3)})
+		e.P.Write(simpleGet(e.P, good, tag))
+		rt.Wait()
+		count := func() (conn int64, per map[uint32]int64, end map[uint32]bool) {
+			per, end = map[uint32]int64{}, map[uint32]bool{}
+			for _, f := range e.P.Frames() {
+				if f.Type == wire.TData {
+					conn += int64(f.Len)
+					per[f.Stream] += int64(f.Len)
+					end[f.Stream] = end[f.Stream] || f.EndStream
+				}
+				if f.Type == wire.TGoAway {
+					fail("error-frame", "the server sent "+f.String()+" after a response body reader failed")
+				}
+			}
+			return
+		}
+		conn, per, _ := count()
+		if conn > 65535 {
+			fail("window-exceeded", fmt.Sprintf("the peer has granted 65535 bytes of connection window and received %d bytes of DATA (per stream %v); %d response(s) before stream %d broke off after %v bytes when their body reader failed", conn, per, nBroken, good, breakAt))
+		}
+		if conn < 65535 && per[good] < int64(goodSize) {
+			fail("stalled-with-open-windows", fmt.Sprintf("stream %d still owes %d bytes, its window is open and the connection window has %d left by the peer's count, and the server is quiescent", good, int64(goodSize)-per[good], 65535-conn))
+		}
+		e.P.Write(rt.WindowUpdate(0, 1<<20))
+		rt.Wait()
+		_, per, end := count()
+		if !failed && (per[good] != int64(goodSize) || !end[good]) {
+			fail("not-completed", fmt.Sprintf("stream %d: %d of %d bytes arrived, END_STREAM %v, although its windows are open", good, per[good], goodSize, end[good]))
+		}
+		r.Inc("responses_broken_off_by_their_body_reader", int64(nBroken))
+		e.Finish()
+	})
+	c01Outcome(r, id, res, nil, replay, "C06")
+	r.Eval(vf.Hash("read-error", nBroken), true)
 }
